@@ -308,8 +308,12 @@ PLANS["C10"] = Plan(
     bounded=[bounded.ode.harness],
     explanation="proved: _is_ok returns True iff every element lies strictly inside (-1e10, 1e10); __j_from_ode_compute stays "
                 "inside both arrays and fills the destination exactly (closed form of the write index), for all row/column/"
-                "state-dimension combinations; j_from_ode allocates exactly that buffer, hands a completely written buffer to "
-                "fsum and returns 1e200 for runs with at most one row. bounded: post-condition of run_ode (shape, first row, "
+                "state-dimension combinations, and the cells of the destination are in one-to-one correspondence (ghost maps "
+                "cell <-> (time step, column), mutually inverse) with the documented summands: squared controls of row r-1 "
+                "times gamma * (t_r - t_(r-1)) for every step r, squared used states of row r-1 times (t_r - t_(r-1)) for "
+                "every step r >= 2 (start state skipped, last row skipped), clipped at 1e100; j_from_ode allocates exactly "
+                "that buffer, hands a completely written buffer to fsum, returns fsum(those summands) / final time, and "
+                "1e200 for runs with at most one row. bounded: post-condition of run_ode (shape, first row, "
                 "strictly increasing times, finiteness, |v| < 1e10, control entries recomputed, failure row) and the "
                 "documented figure of merit on a fixed family of programs incl. diverging / NaN / inf controllers and linear "
                 "systems with closed-form solutions",
@@ -419,8 +423,9 @@ META = {
                     "monitored by the bounded harness, not proved); get_differentials is covered by the monitor only",
             "technique": "contract-based deductive verification of the FigureOfMerit methods (object state, frame, "
                          "write-before-read ghost state) + run-time contract monitor"},
-    "C10": {"text": "the integer/array logic around the integrator is proved (_is_ok, the figure-of-merit buffer computation and "
-                    "its allocation); the simulation post-condition is monitored on a fixed family of programs including "
+    "C10": {"text": "the code around the integrator is proved: _is_ok, and the figure of merit j_from_ode = exactly rounded sum of "
+                    "the documented time-weighted squared controls and states divided by the simulated time (cell-by-cell "
+                    "bijection between the buffer and the documented summands); the simulation post-condition is monitored on a fixed family of programs including "
                     "diverging and NaN/inf controllers; termination/accuracy of scipy RK45 is outside any contract here",
             "note": "level 'other': proof for helper kernels + bounded stand-in for run_ode",
             "technique": "contract-based deductive verification (closed-form index invariant) + bounded run-time monitor"},
